@@ -2,6 +2,7 @@ package compiler
 
 import (
 	"fmt"
+	"sort"
 
 	"github.com/grafana/cog/internal/ast"
 )
@@ -120,7 +121,13 @@ func (pass *DisjunctionInferMapping) inferDiscriminatorField(schema *ast.Schema,
 		allTypes = append(allTypes, typeName)
 	}
 
+	candidateFieldNames := make([]string, 0, len(candidates[someType]))
 	for candidateFieldName := range candidates[someType] {
+		candidateFieldNames = append(candidateFieldNames, candidateFieldName)
+	}
+	sort.Strings(candidateFieldNames) // to ensure a deterministic choice
+
+	for _, candidateFieldName := range candidateFieldNames {
 		existsInAllBranches := true
 		for _, branchTypeName := range allTypes {
 			if _, ok := candidates[branchTypeName][candidateFieldName]; !ok {
